@@ -2,7 +2,7 @@
 //   (9 ndim angles)                                   -> (M)                      rotation matrix built by Grid::setRotationByAngles
 //   (0 nx dx x0 rot pol sel pts)                      -> (nrows ncols rows apex)  ProjMatrix on a MeshETurbo
 //   (1 ndim apices meshes pts)                        -> (nrows ncols rows)       ProjMatrix on a MeshEStandard
-//   (2 mesh cov v)                                    -> (n S lambda coeffs free cs training Q diagfree diagcs)
+//   (2 mesh cov v dest)                               -> (n S lambda coeffs free cs training Q diagfree diagcs ... addToDest of both forms)
 //   (3 mesh cov pts z var ptsout)                     -> solves through Cholesky / conjugate gradient, kriging both ways
 // mesh = (0 nx dx x0 rot pol sel) | (1 ndim apices meshes);  cov = (param sill ranges angles)
 #include "sx.hpp"
@@ -157,12 +157,19 @@ static std::string run(const Sx& c) {
     Qf.setTraining(false);
     VectorDouble coeffs = Qf.getCoeffs();
     VectorDouble coeffs2 = Qc.getCoeffs();
+    // addToDest of both forms on the same non-zero destination
+    VD dst = c[4].vd();
+    std::vector<double> d1(n), d2(n);
+    for (int i = 0; i < n; i++) d1[i] = d2[i] = (i < (int) dst.size()) ? dst[i] : 1.;
+    VD dst0(d1.begin(), d1.end());
+    Qf.addToDest(constvect(v.data(), n), vect(d1.data(), n));
+    Qc.addToDest(constvect(v.data(), n), vect(d2.data(), n));
     // the two operators are built independently: S, Lambda of both are reported (they must coincide)
     o << "(" << n << " " << denseOut(Qf.getShiftOp()->getS()) << " " << sx_vd(deep(Qf.getShiftOp()->getLambdas()))
       << " " << sx_vd(deep(coeffs)) << " " << sx_vd(deep(out1)) << " " << sx_vd(deep(out2)) << " " << sx_vd(deep(out3))
       << " " << denseOut(Qc.getQ()) << " " << sx_vd(deep(Qf.extractDiag())) << " " << sx_vd(deep(Qc.extractDiag()))
       << " " << denseOut(Qc.getShiftOp()->getS()) << " " << sx_vd(deep(Qc.getShiftOp()->getLambdas())) << " " << sx_vd(deep(coeffs2))
-      << " " << sx_vd(v) << ")";
+      << " " << sx_vd(v) << " " << sx_vd(dst0) << " " << sx_vd(VD(d1.begin(), d1.end())) << " " << sx_vd(VD(d2.begin(), d2.end())) << ")";
     delete model; delete mesh;
   } else if (kind == 3) {
     AMesh* mesh = makeMesh(c[1]);
@@ -209,11 +216,25 @@ static std::string run(const Sx& c) {
     double ld1 = s1.computeLogDet(1);
     double var_api = s1._precisionsKrig->getVarianceData(0);
     ProjMatrix Aout(dout, mesh);
+    // krigingSPDENew (SPDEOp / SPDEOpMatrix) in both modes: model with an explicit nugget = var_api, output Db with a Z locator
+    VD kn1, kn0;
+    // nugget well above the floor eps * total sill that buildInvNugget applies
+    double var_new = var + c[2][1].d() / 8.;
+    {
+      Model* model2 = makeModel(c[2], ndim);
+      model2->addCovFromParam(ECov::NUGGET, 0., var_new);
+      VD zero(c[6].size(), 0.);
+      Db* dout2 = makeDb(c[6], ndim, &zero);
+      VectorMeshes meshes = { mesh };
+      kn1 = deep(krigingSPDENew(dat, dout2, model2, meshes, 1));
+      kn0 = deep(krigingSPDENew(dat, dout2, model2, meshes, 0));
+      delete dout2; delete model2;
+    }
     o << "(" << n << " " << ndat << " " << denseOut(Qc.getQ()) << " (" << projOut(A) << ") " << sx_vd(VD(rhs[0].begin(), rhs[0].end()))
       << " " << sx_vd(VD(xc[0].begin(), xc[0].end())) << " " << sx_vd(VD(xf[0].begin(), xf[0].end()))
       << " " << sx_d(quad_c) << " " << sx_d(quad_f) << " " << sx_d(logdet_c) << " " << sx_vd(VD(y1.begin(), y1.end()))
       << " " << sx_vd(kc) << " " << sx_vd(kf) << " " << sx_d(q1) << " " << sx_d(q0) << " " << sx_d(ld1) << " " << sx_d(var_api) << " " << sx_d(ll1) << " " << sx_d(ll0)
-      << " (" << projOut(Aout) << ") " << Mf.getLogStats()._inverseCGNIter << ")";
+      << " (" << projOut(Aout) << ") " << Mf.getLogStats()._inverseCGNIter << " " << sx_vd(kn1) << " " << sx_vd(kn0) << " " << sx_d(var_new) << ")";
     delete dat; delete dout; delete model; delete mesh;
   } else o << "(-997 1)";
   return o.str();
